@@ -569,7 +569,7 @@ func allCases() []*caseT {
 		return base, cfgs{
 			custom("ns1", "custom-b", kv("app", "a"), "authz-http", "/b", "/bb"),
 			custom("ns1", "custom-a", kv("app", "a"), "authz-http", "/a"),
-			custom("istio-system", "custom-root", nil, "authz-http", "/root"),
+			custom("ns1", "custom-ns", nil, "authz-http", "/ns"),
 			custom("istio-system", "custom-gw", kv("istio", "ingressgateway"), "authz-grpc", "/gw"),
 			custom("istio-system", "custom-gw2", kv("istio", "ingressgateway"), "authz-grpc", "/gw2"),
 		}
